@@ -374,9 +374,10 @@ def make_step(rec, env, cfg):
 
         charerr = ms.charerr or (op[0] in ("ci", "drop") and op[1] in ms.iso and (
             outcome != "ok" or any(c.kind in ("cursor", "execute", "cursor_close") for c in errs)))
+        probe_charerr = []
 
         def bad(k, what):
-            if charerr and not exited and k.split("-")[0] in ("Q1", "Q2", "Q3", "I3", "I1", "I4"):
+            if (charerr or probe_charerr) and k.split("-")[0] in ("Q1", "Q2", "Q3", "I3", "I1", "I4"):
                 rec.violation(SIG_CHAR, "cfg %s history %s: %s: %s\nledger of the last op: %s" % (
                     list(cfg), names, k, what, [repr(c) for c in sl][:30]), case, kind="char-reset-slot-loss")
                 rec.count("char_reset_findings")
@@ -511,13 +512,17 @@ def make_step(rec, env, cfg):
                 cid = w.cid(f)
                 w.holders[i] = None
                 start = len(led.log)
+                raised = False
                 try:
                     f.close()
                 except (sa_exc.SQLAlchemyError, sqlite3.Error):
-                    pass
+                    raised = True
                 except Exception as e:
                     return bad("internal-error", "release of holder %d: %s: %s" % (i, type(e).__name__, e))
                 del f
+                if i in m2.iso and (raised or any(c.dead and c.kind in ("cursor", "execute", "cursor_close")
+                                                  for c in led.log[start:])):
+                    probe_charerr.append(i)  # the reset callback failed on a dead connection: SIG_CHAR territory
                 if m2.holders[i] == "detached" and cid is not None and led.conns[cid].open:
                     if not any(c.dead and c.kind != "close" for c in led.log[start:]):
                         return bad("Q2-detached-not-closed", "close() of a detached connection did not close it")
@@ -528,7 +533,7 @@ def make_step(rec, env, cfg):
         for p in w.pools:
             if isinstance(p, sa_pool.QueuePool):
                 okc = p.checkedout() == 0 and p.overflow() == p.checkedin() - p.size()
-                if not okc and m2.spoiled and not m2.exited and not m2.charerr:
+                if not okc and m2.spoiled and not m2.exited and not m2.charerr and not probe_charerr:
                     rec.violation(SIG_DISPOSE, "cfg %s history %s: all holders released but checkedout()=%d checkedin()=%d "
                                   "overflow()=%d" % (list(cfg), names, p.checkedout(), p.checkedin(), p.overflow()),
                                   case, kind="dispose-counters")
